@@ -28,7 +28,11 @@ var ikindCoq = []string{"I32", "I64", "U32", "U64"}
 type IntRules struct {
 	Min, Max   *int64
 	XMin, XMax *bool
+	Mult       *int64 // rules.multipleOf (schema.proto:313): beside int_rules in the Coq model (xprop.x_mult)
 }
+
+// MapField.Ext (present, with its optional single form): xprop.x_map_ext
+type MapExt struct{ Single *string }
 type StrRules struct {
 	Pat      *string
 	Min, Max *uint64
@@ -146,6 +150,7 @@ type Prop struct {
 	Arr      *ArrRules
 	MapR     *MapRules
 	Single   *string // array ext single_form
+	MapExt   *MapExt // map ext
 	T        FTy
 	Desc     string
 }
@@ -422,6 +427,19 @@ func (p Prop) Coq() string {
 	return fmt.Sprintf("(P %s %s %s %s %s)", vh.BytesTerm(p.Name), vh.BoolTerm(p.Req), vh.BoolTerm(p.Opt), ty, vh.BytesTerm(p.Desc))
 }
 
+// XCoq: the declaration in the extended language of model/RulesCompile.v
+func (p Prop) XCoq() string {
+	mult := "None"
+	if p.T.Kind == TInt && p.T.Int != nil {
+		mult = optZ(p.T.Int.Mult)
+	}
+	ext := "None"
+	if p.PK == PMap && p.MapExt != nil {
+		ext = "(Some " + optS(p.MapExt.Single) + ")"
+	}
+	return fmt.Sprintf("(XP %s %s %s)", p.Coq(), mult, ext)
+}
+
 func (e EnumEnv) Coq() string {
 	zero := "None"
 	if e.Unspecified != "" {
@@ -495,6 +513,9 @@ func (t FTy) j5s(enum EnumEnv, prefix string) (tag string, lines []string) {
 			}
 			if r.XMax != nil {
 				add("rules.exclusiveMaximum = %v", *r.XMax)
+			}
+			if r.Mult != nil {
+				add("rules.multipleOf = %d", *r.Mult)
 			}
 		}
 	case TStr:
@@ -673,11 +694,18 @@ func (p Prop) J5S(enum EnumEnv) string {
 				lines = append(lines, fmt.Sprintf("rules.maxPairs = %d", *r.Max))
 			}
 		}
+		if p.MapExt != nil && p.MapExt.Single != nil {
+			lines = append(lines, "ext.singleForm = "+q(*p.MapExt.Single))
+		}
 		lines = append(lines, ilines...)
 	}
 	fmt.Fprintf(&sb, "\tfield %s %s {\n", p.Name, tag)
 	if p.Desc != "" {
 		for _, l := range strings.Split(p.Desc, "\n") {
+			if l == "" {
+				sb.WriteString("\t\t|\n") // paragraph break
+				continue
+			}
 			fmt.Fprintf(&sb, "\t\t| %s\n", l)
 		}
 	}
